@@ -260,8 +260,8 @@ class Scenario:
             if self.dead:
                 return "DEAD"
             a = self.do("CONSUME", ("consume",))
-            if a != "SOME":
-                return a
+            if a == "NONE 0" or a in ("PANIC", "DEAD", "EOF"):
+                return a            # ready queue empty: the router would block on its channel
         return "SOME"
 
     def end_connection(self, cl, how):
@@ -410,6 +410,8 @@ class Scenario:
         elif x == 5:
             self.do("METERS", ("meters",))
         elif x in (6, 7):
+            if r.chance(4, 5):
+                self.drain(cl)       # the client has seen everything sent to it: the ack below is decidably unsolicited
             kind = r.choice(["PUBACK", "PUBREC", "PUBCOMP"])
             self.push(cl, "%s %d" % (kind, r.choice([0, 1, 2, 50, 100, 101, 65535])), ("bad_ack",))
             self.data(cl)
